@@ -586,6 +586,19 @@ def rule_cooldown_owned(fx, col):
             col.add('COOLDOWN-OWNED', '%s|start_cooldown' % b.fname, owned and detached and not used_after,
                     'receiver derives from the thread\'s own handle (%s); %s; uses of the cooled node afterwards: %s' % (sorted(recv), why, used_after), b.loc(bb))
     col.floor('COOLDOWN-OWNED', 'start_cooldown call sites', n, 2)
+    # the owner brings its view of active_writers up to date (an RMW on it) before releasing the flag: check_cooldown reads
+    # active_writers Relaxed after acquiring in_use, so the Release on in_use must carry a current value
+    cx = O.ctx(fx)
+    for s in cx.sites:
+        if s.cls == 'in_use' and s.op == 'swap' and U.int_of(s.body, s.arg(1)) == cx.NODE_COOLDOWN:
+            b = s.body
+            rmw = []
+            for bb, t, cb in cx.local_calls(b):
+                if cx.summ.has_site(cb.key, lambda x: x.cls == 'active_writers' and x.op.startswith('fetch_')) and b.dominates(bb, s.bb) and bb != s.bb:
+                    rmw.append(bb)
+            own = [x.bb for x in cx.summ.sites_by_body.get(b.key, ()) if x.cls == 'active_writers' and x.op.startswith('fetch_') and b.dominates(x.bb, s.bb)]
+            col.add('COOLDOWN-OWNED', '%s|writers count synchronised before release' % b.fname, bool(rmw or own),
+                    'an RMW on active_writers precedes the Release swap of in_use to COOLDOWN (the value check_cooldown later reads Relaxed is at least that recent)', s.loc)
     d = [b for b in lib.bodies if b.fname == '<debt::list::LocalNode as std::ops::Drop>::drop']
     col.add('COOLDOWN-OWNED', 'LocalNode|Drop impl', len(d) == 1, 'LocalNode releases its node on thread exit')
 
